@@ -78,6 +78,10 @@ type funcSpec struct {
 	// they become parameters
 	startAt   string
 	startVars []string
+	// world: everything outside the function is one explicit state (`tape__ : τ`): EVERY abstract callee, and every method
+	// of a value whose type is opaque here, takes it and hands it back; values of opaque types are handles (never changed
+	// themselves), so two variables may hold the same one. Implies tape.
+	world bool
 	// logs: module functions that only print (a warning on the terminal): with `tape`, a call appends to the explicit state:
 	// `tape__ ← f tape__ k ints` for the k-th such call site of the function (listed in its doc comment) and the integer
 	// arguments of the call
@@ -195,6 +199,8 @@ var funcSpecs = []funcSpec{
 	{rel: "cmd/age", name: "randomWord", abstract: []string{"main.wordlist"}, opaque: map[string]string{"tapeτ": "τ"}, tape: true},
 	{rel: "cmd/age", name: "passphrasePromptForEncryption", abstract: []string{"main.readSecret", "main.printfToTerminal", "main.wordlist"}, opaque: map[string]string{"tapeτ": "τ"}, tape: true,
 		threaded: map[string][]string{"main.readSecret": {"tape"}, "main.printfToTerminal": {"tape"}}},
+	{rel: "cmd/age", name: "encrypt", abstract: []string{"armor.NewWriter", "age.Encrypt", "io.Copy"}, exits: []string{"main.errorf"}, world: true,
+		opaque: map[string]string{"age.Recipient": "ρ", "io.Writer": "ζ", "io.WriteCloser": "ζ", "tapeτ": "τ"}},
 	{rel: "", name: "aeadEncrypt", abstract: []string{"chacha20poly1305.New"}, opaque: map[string]string{"cipher.AEAD": "α"}},
 	{rel: "", name: "aeadDecrypt", abstract: []string{"chacha20poly1305.New"}, opaque: map[string]string{"cipher.AEAD": "α"}},
 	{rel: "agessh", name: "aeadEncrypt", abstract: []string{"chacha20poly1305.New"}, opaque: map[string]string{"cipher.AEAD": "α"}},
@@ -307,6 +313,9 @@ type fctx struct {
 	deferred     []ast.Stmt // bodies of `defer func() { … }()` statements passed so far (function level only)
 	tapeVar      *types.Var // the explicit crypto/rand state (funcSpec.tape)
 	logN         int        // log sites passed so far (funcSpec.logs)
+	hoisted      map[*types.Var]bool     // locals of a branch that a deferred closure of that branch uses: declared at the top of the function
+	condDefer    map[*ast.DeferStmt]string // a `defer` inside a branch -> the flag that records whether it was registered
+	deferGuard   map[ast.Stmt]string     // deferred block -> its flag
 	stopped      bool       // funcSpec.stopAt was reached: the remaining statements are not translated
 	// closures: `x := func(…) … { … }` at function level whose only captured variable is the receiver: translated as
 	// one more method of the receiver's type (the receiver handed back), `x(…)` as a call of that method
@@ -1267,7 +1276,12 @@ func (c *fctx) call(x *ast.CallExpr) string {
 								rs = append(rs, c.leanType(x, msig.Results().At(i).Type()))
 							}
 							an := nt.Obj().Name() + "_" + o.Name()
-							c.useAbstractName(an, fmt.Sprintf("(%s : %s → Go.M %s)", an, strings.Join(ps, " → "), tupleType(rs)))
+							world := c.spec != nil && c.spec.world
+							if world {
+								c.useAbstractName(an, fmt.Sprintf("(%s : %s → τ → Go.M %s)", an, strings.Join(ps, " → "), tupleType(append(append([]string{}, rs...), "τ"))))
+							} else {
+								c.useAbstractName(an, fmt.Sprintf("(%s : %s → Go.M %s)", an, strings.Join(ps, " → "), tupleType(rs)))
+							}
 							parts := []string{c.expr(sel.X)}
 							for i, a := range x.Args {
 								var want types.Type
@@ -1275,6 +1289,37 @@ func (c *fctx) call(x *ast.CallExpr) string {
 									want = msig.Params().At(i).Type()
 								}
 								parts = append(parts, c.exprAs(a, want))
+							}
+							if world {
+								// the method works on the world: hoisted in front of the statement, the world assigned back
+								if c.tapeVar == nil || c.noHoist {
+									c.fail(x, "method %s of an opaque value in this position", o.Name())
+								}
+								nres := len(rs)
+								t := c.tmp()
+								e, ind := c.curE, c.curInd
+								tp := c.nameOf(c.tapeVar)
+								e.add(ind, "let "+t+" ← "+an+" "+strings.Join(parts, " ")+" "+tp)
+								proj := func(i int) string {
+									p := t + strings.Repeat(".2", i)
+									if i < nres {
+										p += ".1"
+									}
+									return p
+								}
+								e.add(ind, tp+" := "+proj(nres))
+								c.curE, c.curInd = e, ind
+								switch nres {
+								case 0:
+									return "()"
+								case 1:
+									return proj(0)
+								}
+								var vals []string
+								for i := 0; i < nres; i++ {
+									vals = append(vals, proj(i))
+								}
+								return "(" + strings.Join(vals, ", ") + ")"
 							}
 							return "(← " + an + " " + strings.Join(parts, " ") + ")"
 						}
@@ -2357,6 +2402,73 @@ func isBufioReader(t types.Type) bool {
 	return ok && nt.Obj().Pkg() != nil && nt.Obj().Pkg().Path() == "bufio" && nt.Obj().Name() == "Reader"
 }
 
+// deferredStmt emits one deferred statement at a point where the function returns; a deferred block that was registered
+// under a condition runs only if its flag is set
+func (c *fctx) deferredStmt(e *emitter, ind int, s ast.Stmt) {
+	if flag, ok := c.deferGuard[s]; ok {
+		e.add(ind, "if "+flag+" then")
+		c.block(e, ind+1, s.(*ast.BlockStmt).List)
+		return
+	}
+	c.stmt(e, ind, s)
+}
+
+// prepareCondDefers finds the `defer func() { … }()` statements that stand inside an `if` branch of the function body (not
+// in a loop, not in a closure): each gets a flag, false at the start, set where the defer stands, tested where the function
+// returns. Locals of the branch that the deferred closure uses are declared at the top of the function with their zero value
+// (they are assigned, not declared, where the branch declares them). Returns the declarations to emit first.
+func (c *fctx) prepareCondDefers() []string {
+	var decls []string
+	c.hoisted = map[*types.Var]bool{}
+	c.condDefer = map[*ast.DeferStmt]string{}
+	c.deferGuard = map[ast.Stmt]string{}
+	var walk func(list []ast.Stmt, outer ast.Node)
+	walk = func(list []ast.Stmt, outer ast.Node) {
+		for _, s := range list {
+			switch st := s.(type) {
+			case *ast.IfStmt:
+				o := outer
+				if o == nil {
+					o = st
+				}
+				walk(st.Body.List, o)
+				switch el := st.Else.(type) {
+				case *ast.BlockStmt:
+					walk(el.List, o)
+				case *ast.IfStmt:
+					walk([]ast.Stmt{el}, o)
+				}
+			case *ast.DeferStmt:
+				if outer == nil {
+					continue
+				}
+				lit, ok := st.Call.Fun.(*ast.FuncLit)
+				if !ok || len(st.Call.Args) != 0 || lit.Type.Params.NumFields() != 0 {
+					continue // refused where the statement is translated
+				}
+				flag := fmt.Sprintf("deferred_%d__", len(c.condDefer)+1)
+				c.condDefer[st] = flag
+				decls = append(decls, "let mut "+flag+" : Bool := false")
+				ast.Inspect(lit.Body, func(n ast.Node) bool {
+					id, ok := n.(*ast.Ident)
+					if !ok {
+						return true
+					}
+					v, ok := c.info().Uses[id].(*types.Var)
+					if !ok || c.hoisted[v] || v.Pos() < outer.Pos() || v.Pos() > st.Pos() {
+						return true
+					}
+					c.hoisted[v] = true
+					decls = append(decls, fmt.Sprintf("let mut %s : %s := %s", c.nameOf(v), c.varLeanType(id, v), c.zero(id, v.Type())))
+					return true
+				})
+			}
+		}
+	}
+	walk(c.fi.Decl.Body.List, nil)
+	return decls
+}
+
 // isLog: f is listed in funcSpec.logs
 func (c *fctx) isLog(f *types.Func) bool {
 	if f == nil || f.Pkg() == nil || c.spec == nil {
@@ -2386,6 +2498,9 @@ func (c *fctx) threadedVars(call *ast.CallExpr) []*types.Var {
 	}
 	if c.tapeVar != nil && c.isLog(f) {
 		out = append(out, c.tapeVar)
+	}
+	if c.tapeVar != nil && c.spec != nil && c.spec.world && c.isAbstract(f) {
+		return []*types.Var{c.tapeVar}
 	}
 	if c.tapeVar != nil && f != c.fi.Obj && !c.isAbstract(f) {
 		if fi := c.t.pr.Funcs[f]; fi != nil && c.t.translatable(fi) {
@@ -2583,6 +2698,10 @@ func (c *fctx) assignTo(e *emitter, ind int, lhs ast.Expr, val string, define bo
 		}
 		if define {
 			if v, ok := c.info().Defs[l].(*types.Var); ok && v != nil {
+				if c.hoisted[v] {
+					e.add(ind, c.nameOf(v)+" := "+val) // declared at the top of the function (a deferred closure uses it)
+					return
+				}
 				e.add(ind, fmt.Sprintf("let mut %s : %s := %s", c.nameOf(v), c.varLeanType(l, v), val))
 				return
 			}
@@ -2871,7 +2990,16 @@ func (c *fctx) stmt(e *emitter, ind int, s ast.Stmt) {
 		}
 		e.add(ind, "let _ := "+c.expr(call))
 	case *ast.DeferStmt:
-		// a defer registered under a condition or in a loop runs only if control passed it: not modelled
+		// a defer registered under a condition runs only if control passed it: a flag records that (prepared by
+		// prepareCondDefers); in a loop: not modelled
+		if flag, ok := c.condDefer[st]; ok && c.lc == nil {
+			lit := st.Call.Fun.(*ast.FuncLit)
+			e.add(ind, flag+" := true")
+			blk := &ast.BlockStmt{List: lit.Body.List}
+			c.deferGuard[blk] = flag
+			c.deferred = append(c.deferred, blk)
+			return
+		}
 		if ind != 1 || c.lc != nil {
 			c.fail(s, "defer inside a block, a branch or a loop")
 		}
@@ -2920,7 +3048,7 @@ func (c *fctx) stmt(e *emitter, ind int, s ast.Stmt) {
 			saved := c.deferred
 			c.deferred = nil
 			for i := len(saved) - 1; i >= 0; i-- {
-				c.stmt(e, ind, saved[i])
+				c.deferredStmt(e, ind, saved[i])
 			}
 			c.deferred = saved
 			var vals []string
@@ -3680,7 +3808,7 @@ func (t *ftr) translate(fi *FuncInfo, from *fctx, at ast.Node) string {
 			shadow = append(shadow, fmt.Sprintf("let mut %s := %s", c.nameOf(rv), c.nameOf(rv)))
 		}
 	}
-	if spec != nil && spec.tape {
+	if spec != nil && (spec.tape || spec.world) {
 		tn := types.NewTypeName(fi.Decl.Pos(), fi.Pkg.Types, "tapeτ", nil)
 		c.tapeVar = types.NewVar(fi.Decl.Pos(), fi.Pkg.Types, "tape__", types.NewNamed(tn, types.NewStruct(nil, nil), nil))
 		asg = c.assignedIn(fi.Decl.Body)
@@ -3781,6 +3909,9 @@ func (t *ftr) translate(fi *FuncInfo, from *fctx, at ast.Node) string {
 	for _, l := range shadow {
 		e.add(1, l)
 	}
+	for _, l := range c.prepareCondDefers() {
+		e.add(1, l)
+	}
 	started := spec == nil || spec.startAt == ""
 	for _, s := range fi.Decl.Body.List {
 		if c.stopped {
@@ -3804,7 +3935,7 @@ func (t *ftr) translate(fi *FuncInfo, from *fctx, at ast.Node) string {
 			saved := c.deferred
 			c.deferred = nil
 			for i := len(saved) - 1; i >= 0; i-- {
-				c.stmt(e, 1, saved[i])
+				c.deferredStmt(e, 1, saved[i])
 			}
 			c.deferred = saved
 		}
